@@ -92,6 +92,21 @@ def case(draw, depth):
             chain = [chain[2], chain[0], chain[1]]
             ops_ = ["+", "-"]
         e = A.Flat(chain + e.operands[:1], ops_ + ["+"]) if draw(st.booleans()) else A.Flat(chain, ops_)
+    if kind != "int" and draw(st.integers(0, 11)) == 0:
+        # an exact quotient of integers is still a true division: used as a negative exponent, under a negative exponent, or
+        # scaled beyond the 64-bit integer range afterwards
+        I = lambda v: A.Operand("", A.Num("int", str(v)))
+        b_ = draw(st.integers(2, 9))
+        q_ = draw(st.integers(2, 6))
+        form = draw(st.integers(0, 3))
+        if form == 0:
+            e = A.Flat([A.Operand("", A.Paren(A.Flat([I(b_ * q_), I(b_)], ["/"]))), A.Operand("-", A.Num("int", str(draw(st.integers(1, 3)))))], ["**"])
+        elif form == 1:
+            e = A.Flat([I(draw(st.integers(2, 5))), A.Operand("-", A.Paren(A.Flat([I(b_ * q_), I(b_)], ["/"])))], ["**"])
+        elif form == 2:
+            e = A.Flat([A.Operand("", A.Paren(A.Flat([I(10), I(18)], ["**"]))), I(10), I(draw(st.sampled_from([100, 1000, 93])))], ["/", "*"])
+        else:
+            e = A.Flat([I(b_ * q_ * 10 ** 17), I(b_), I(draw(st.sampled_from([7, 50, 1000])))], ["/", "*"])
     if redecl is not None:
         e = A.Flat([A.Operand("", draw(S.index_of(ctx, redecl)))] + e.operands, [draw(st.sampled_from(["+", "-", "*"]))] + e.ops)
     gaps = draw(st.lists(st.integers(0, 2), min_size=1, max_size=6))
@@ -262,6 +277,32 @@ def _localise_expr(c):
         return "exc:%s@surface-form" % type(e).__name__
 
 
+def _decl_prims(d):
+    inits = [d.init] if isinstance(d, A.ScalarDecl) else [e for r in d.rows for e in r]
+    for e in inits:
+        if isinstance(e, A.Flat):
+            yield from A.walk_prims(e)
+
+
+def _complex_twin(c):
+    def cx(p):
+        if isinstance(p, A.Fn):
+            return A.Fn(p.name, A.Flat([A.Operand("", A.Paren(p.e)), A.Operand("", A.Num("complex", "0j"))], ["+"]))
+        return p
+
+    def ty(t):
+        return "complex" if t in ("int", "float") else t
+    decls = []
+    for d in c["decls"]:
+        if isinstance(d, A.ScalarDecl):
+            decls.append(A.ScalarDecl(ty(d.vtype), d.name, A.map_flat(d.init, cx) if isinstance(d.init, A.Flat) else d.init))
+        elif isinstance(d, A.ArrayDecl):
+            decls.append(A.ArrayDecl(ty(d.vtype), d.name, d.shape, [[A.map_flat(e, cx) if isinstance(e, A.Flat) else e for e in r] for r in d.rows]))
+        else:
+            decls.append(d)
+    return build({"decls": decls, "expr": A.map_flat(c["expr"], cx)})
+
+
 def check(c):
     script = build(c)
     try:
@@ -295,6 +336,19 @@ def check(c):
     if "**" in c["expr"].ops:
         out.classes.append("power")
     import blackbird
+    if any(isinstance(p, A.Fn) for p in prims) or any(isinstance(q, A.Fn) for d in c["decls"] for q in _decl_prims(d)):
+        # the value of a function call does not depend on what was evaluated before: the same script with every function
+        # argument written as a complex number (x -> (x)+0j) and every declaration complex-typed is loaded first
+        out.classes.append("primed-with-complex-twin")
+        try:
+            twin = render.render(_complex_twin(c), render.Layout(gaps=c["gaps"]))
+            with warnings.catch_warnings():
+                warnings.simplefilter("ignore")
+                blackbird.loads(twin)
+        except RecursionError:
+            raise
+        except Exception:
+            pass
     try:
         with warnings.catch_warnings():
             warnings.simplefilter("ignore")
